@@ -5,8 +5,18 @@ undecorated function returns on the plain arguments.  Protocol: `N|id|<json>`.
 Argument structures may SHARE sub-containers: the json node ["ref", k] is the k-th list/tuple/dict completed so far
 while building this call's arguments, and is built as THE SAME Python object (`f(v, v)`, `[row, row]`).  A call may
 carry "guards": [[kind, g], ...] (kind "L": PrivVal(g), "B": PrivValBool(g)), outermost first: the decorated call is
-then made inside `guarded(c1)(lambda: guarded(c2)(...)())()` of the real runtime."""
-import sys, os, json, traceback
+then made inside `guarded(c1)(lambda: guarded(c2)(...)())()` of the real runtime.
+
+A run may carry "pool": [struct, ...]: containers built ONCE per run; the node ["g", k] in the arguments of any call is
+the k-th of them (the SAME mutable object handed to several calls of one run: `w = [3,4,5]; f(w, 1); f(w, 2)`).  Around
+every call the worker describes the caller's argument objects before and after (`args_changed`) and the object the body
+returned, as the body saw it and after the wrapper is done with it (`ret_changed`): the wrapper owns neither.
+
+Templates `fmt:<conv>` are bodies that FORMAT or CONVERT their secret intermediates (one of each kind: integer, boolean,
+fixed point) and their arguments: str, repr, %-formatting, f-strings, format(), print to a stream, a logging call, an
+exception message that is caught, containers printed as a whole; and the conversions Python refuses for circuit values
+(bool, int, float, hash, index, len, iteration), each caught by the body.  None of them may publish anything."""
+import sys, os, json, traceback, copy, io
 from fractions import Fraction
 sys.path.insert(0, os.path.dirname(os.path.abspath(__file__)))
 import worker as W
@@ -18,17 +28,19 @@ from pysnark.boolean import LinCombBool
 from pysnark.fixedpoint import LinCombFxp
 
 
-def build(a, memo=None):
+def build(a, memo=None, pool=()):
     """json -> python structure: ["i", n] int, ["f", m, e] float m/2^e, ["l", [...]], ["t", [...]], ["d", {k: v}],
-    ["ref", k]: the k-th container completed so far (the same object, not a copy)"""
+    ["ref", k]: the k-th container completed so far (the same object, not a copy); ["g", k]: the k-th object of the run's
+    pool (the same object in every call of the run)"""
     if memo is None: memo = []
     t = a[0]
     if t == "i": return a[1]
     if t == "f": return float(Fraction(a[1], 2 ** a[2]))
     if t == "ref": return memo[a[1]]
-    if t == "l": r = [build(x, memo) for x in a[1]]
-    elif t == "t": r = tuple([build(x, memo) for x in a[1]])
-    elif t == "d": r = {k: build(v, memo) for k, v in a[1].items()}
+    if t == "g": return pool[a[1]]
+    if t == "l": r = [build(x, memo, pool) for x in a[1]]
+    elif t == "t": r = tuple([build(x, memo, pool) for x in a[1]])
+    elif t == "d": r = {k: build(v, memo, pool) for k, v in a[1].items()}
     else: raise ValueError(a)
     memo.append(r)
     return r
@@ -55,9 +67,68 @@ def leaves(x):
         yield x
 
 
+FMT = ["str", "repr", "pct_s", "pct_r", "fstring", "format", "print", "log", "exc", "container", "deepcopy",
+       "bool", "int", "float", "hash", "index", "len", "iter"]
+_LOG = None
+
+
+def convert(conv, v):
+    """one formatting / conversion of a value inside a body; whatever it raises is caught as a debugging body would"""
+    global _LOG
+    try:
+        if conv == "str": return str(v)
+        if conv == "repr": return repr(v)
+        if conv == "pct_s": return "value %s" % (v,)
+        if conv == "pct_r": return "value %r and %5s" % (v, v)
+        if conv == "fstring": return f"value {v} {v!r} {v!s:>8}"
+        if conv == "format": return "{} {!r}".format(v, v) + format(v)
+        if conv == "print":
+            out = io.StringIO(); print("trace:", v, [v], file=out); return out.getvalue()
+        if conv == "log":
+            import logging
+            if _LOG is None:
+                _LOG = logging.getLogger("verif-c17"); _LOG.propagate = False
+                _LOG.addHandler(logging.StreamHandler(io.StringIO())); _LOG.setLevel(logging.DEBUG)
+            _LOG.debug("intermediate %s %r", v, v); _LOG.warning("w %s", [v]); return None
+        if conv == "exc":
+            try:
+                raise ValueError("unexpected value %s (%r)" % (v, v))
+            except ValueError as e:
+                return str(e) + repr(e) + "".join(traceback.format_exception_only(type(e), e))
+        if conv == "container": return str([v, (v,), {"k": v}]) + repr({"a": [v]})
+        if conv == "deepcopy": return repr(copy.deepcopy([v])) + repr(copy.copy(v))
+        if conv == "bool": return bool(v)
+        if conv == "int": return int(v)
+        if conv == "float": return float(v)
+        if conv == "hash": return hash(v)
+        if conv == "index": return [0, 1][v]
+        if conv == "len": return len(v)
+        if conv == "iter": return list(v)
+    except Exception:
+        return None
+    raise ValueError(conv)
+
+
+def describe(x):
+    """what a structure holds, without touching circuit values: container types, leaf classes, plain leaf values"""
+    if isinstance(x, list): return ["l", [describe(y) for y in x]]
+    if isinstance(x, tuple): return ["t", [describe(y) for y in x]]
+    if isinstance(x, dict): return ["d", {str(k): describe(v) for k, v in x.items()}]
+    if isinstance(x, (bool, int)): return [type(x).__name__, x]
+    if isinstance(x, float): return ["float", x.hex()]
+    return ["obj", type(x).__name__, id(x)]
+
+
 def body(template, extra):
-    """function bodies working on any nested argument structure through its numeric leaves"""
+    """function bodies working on any nested argument structure through its numeric leaves; `extra` (a dict) receives the
+    object the body returns and its description at the moment of returning"""
     def f(*args):
+        r = g(*args)
+        if extra is not None:
+            extra["ret"] = r; extra["ret_desc"] = describe(r)
+        return r
+
+    def g(*args):
         xs = list(leaves(args))
         ints = [x for x in xs if not isinstance(x, (float, LinCombFxp))]
         flts = [x for x in xs if isinstance(x, (float, LinCombFxp))]
@@ -85,6 +156,14 @@ def body(template, extra):
             t = (a, a * b)
             u = [t, 5]
             return (u, t, u)
+        if template.startswith("fmt:"):                       # a body that formats/converts its secret intermediates
+            conv = template[4:]
+            y = a * b + 1                                     # integer
+            c = a < b                                         # boolean
+            q = flts[0] * 2 if flts else (LinCombFxp(y) if isinstance(y, LinComb) else float(y))   # fixed point
+            for v in (y, c, q, a, flts[0] if flts else b, [y, c, q]) if conv not in ("index", "len", "iter") else (y, c, q):
+                convert(conv, v)
+            return (y, [c], {"q": q})
         if template == "leak":        # a body that itself publishes something: allowed ("nothing ELSE" refers to the wrapper)
             (a * 1).val(); return a
         raise ValueError(template)
@@ -179,10 +258,15 @@ def main():
             W.reset({"p": W.DEFAULT_P, "bl": 32, "res": j.get("res", 8)})
             p = W.DEFAULT_P
             calls = []
+            pool = [build(x) for x in j.get("pool", [])]      # built once per run: the same objects in every call
             for c in j["calls"]:
-                args = build(["t", c["args"]])
+                args = build(["t", c["args"]], None, pool)
+                args_before = describe(args)
+                # what the undecorated function is run on afterwards: built afresh (an earlier call may have changed the pool)
+                args_plain = build(["t", c["args"]], None, [build(x) for x in j.get("pool", [])])
                 npub_before = len(B.pubvals)
                 rec = {}
+                kept = {}
                 fn = body(c["template"], None)
                 # probe run (own conversion of the arguments, state discarded): which result leaves are secret, and of what kind
                 try:
@@ -209,9 +293,9 @@ def main():
                     pos["np"], pos["npr"], pos["nc"] = len(B.pubvals), len(B.privvals), len(B.constraints)
                     try:
                         if c.get("kwargs"):
-                            ret = snark(fn)(*args, extra=1)
+                            ret = snark(body(c["template"], kept))(*args, extra=1)
                         else:
-                            ret = snark(fn)(*args)
+                            ret = snark(body(c["template"], kept))(*args)
                         rec["status"] = "ok"; rec["ret"] = plainval(ret, j.get("res", 8))
                     except Exception as e:
                         rec["status"] = type(e).__name__
@@ -232,8 +316,14 @@ def main():
                             links.append(idx); break
                 rec["links"] = links
                 rec["unsat"] = [i for i, (a, b, cc) in enumerate(B.constraints) if (W.ev(a, p) * W.ev(b, p) - W.ev(cc, p)) % p != 0][:3]
+                # the caller's argument objects and the object the body returned belong to the caller / the body
+                args_after = describe(args)
+                if args_after != args_before:
+                    rec["args_changed"] = [args_before, args_after]
+                if "ret" in kept and describe(kept["ret"]) != kept["ret_desc"]:
+                    rec["ret_changed"] = [kept["ret_desc"], describe(kept["ret"])]
                 try:
-                    rec["plain"] = plainval(body(c["template"], None)(*args), j.get("res", 8))
+                    rec["plain"] = plainval(body(c["template"], None)(*args_plain), j.get("res", 8))
                 except Exception as e:
                     rec["plain"] = ["!", type(e).__name__]
                 calls.append(rec)
